@@ -148,9 +148,29 @@ def run(ctx):
             if len(ff) == 1:
                 cb2, caps2 = util.closure_of_term(prog, ff[0][2])
                 ok = cb2 is c
+            ncols = census.closure_from_fn_len(c)
+            if not ff:
+                # ... or from_columns(&(0..6).map(column closure).collect::<Vec<_>>()): the columns in the order of the range
+                ms = mir.subterms(rt[2], lambda x: x[0] == 'call' and cname(x[1]) == 'Iterator::map' and len(x) == 4)
+                if len(ms) == 1:
+                    cb2, caps2 = util.closure_of_term(prog, ms[0][3])
+                    r = util.range_of(ms[0][2])
+                    outer = []
+                    def names(x, stop):
+                        if x is stop or not isinstance(x, tuple):
+                            return
+                        if x[0] == 'call':
+                            outer.append(cname(x[1]))
+                        for y in x[1:]:
+                            names(y, stop)
+                    names(rt[2], ms[0])
+                    plain = all(n_ in ('Iterator::collect', 'Deref::deref', 'Vec::as_slice', 'AsRef::as_ref', 'Borrow::borrow') for n_ in outer)
+                    if cb2 is c and r is not None and util.const_val(r[0]) == 0 and not [a for a in r[2] if a != 'into_iter'] and plain:
+                        ok = True
+                        ncols = util.const_val(r[1])
         ctx.check(ok, 'R15.1', 'storage', cj.where(0), cj.path,
                   'column i must receive the position difference at rows 0..3 and the rotation difference at rows 3..6 of the same column', found=found, detail='from_columns(from_fn(column))')
-        ctx.check(census.closure_from_fn_len(c) == 6, 'R15.1', 'all-columns', cj.where(0), cj.path, 'columns must be computed for i in 0..6')
+        ctx.check(ncols == 6, 'R15.1', 'all-columns', cj.where(0), cj.path, 'columns must be computed for i in 0..6')
         _entry_points(ctx, prog, cj)
         return
     # storage
